@@ -32,6 +32,14 @@ Round 7: D9-status-consumed-for-good: in the handling of a status message no pen
    matches (shell patterns intersected) - such a message comes back on every turn and starves the status channels
    created after it; an echo that runs only for an awaited status is harmless (the entry is removed in the same step).
    D6 finds the master's message loop by role (run_forever or the function the listen phase was moved to).
+Round 8: D2-taken-status-is-looked-up (from the binding of a status message - taking it removed it from the transport -
+   every way of ending its handling passes the pending-membership test or the call of the helper that holds it; exception
+   edges and the no-message edges of a `next(it, None)` binding excepted); D4-result-published (data and context of a
+   success status are computed on every path from the value of the call this job's Payload / the pipeline's `process` is
+   handed to - the context that went in is not the result); D4-status-context-per-job (interface condition between the
+   worker's status publish and the constructor of the context class: the published context is not a module-level object
+   and no constructor argument is a module-level mutable the constructor keeps by reference; decided on the normal form
+   built with consts=False, because substituting a module-level dict display into its uses hides exactly this sharing).
 
 All function bodies are analysed in their normal form (sa/normal.py: private helpers inlined,
 named sub-expressions substituted), and the constructs are found by role (what they read /
@@ -1652,6 +1660,7 @@ def run(repo: Repo, R: Report) -> None:
     # failure path and marker agreement
     exc_nodes = [n for n in gq.nodes if is_set(n, ("set_exception",))]
     res_nodes = [n for n in gq.nodes if is_set(n, ("set_result",))]
+    marker_key = None
     if not exc_nodes:
         R.violation(r_res, srel, sqn, "set_exception", "the master has no exceptional completion: a failing job leaves the caller waiting forever", sf.lineno)
     else:
@@ -1784,6 +1793,30 @@ def run(repo: Repo, R: Report) -> None:
                         [f"L{g_own.nodes[i].line}: {g_own.nodes[i].text()[:100]}" for i in path])
         if not carried:
             R.ok(r_own, orel, oqn, f"{n_reads} read(s) behind the completion of a future are all assigned after `{omsg}` is bound", "", g_own.nodes[o_heads[0]].line)
+    # ------------------------------------------------------------------ D2 (a status taken off the transport is looked up)
+    r_taken = R.rule("C15-D2-taken-status-is-looked-up", "every status message the master takes off the transport (the binding of the message by its loop has removed it from the channel for good) reaches the "
+                     "pending-future lookup: no branch between the binding and the membership test / the hand-over to the completing helper leaves the iteration (break, continue, return) - "
+                     "a message dropped there is lost and its job's Future never completes", 1)
+    n_taken = 0
+    if guards:
+        guard_ids = {gd.id for gd, _l in guards}
+        if status_msg is not None and status_msg not in sparams:
+            n_taken += 1
+            _taken_status_rule(R, r_taken, srel, sqn, gq, status_msg, guard_ids, "the pending-future lookup")
+        elif status_msg is not None and sf is not rf:
+            # the lookup lives in a helper the message is handed to: every taken message reaches the call, and the
+            # helper reaches its lookup
+            g_rf = CFG(rf, may_raise=lambda part: set())
+            for orel, oqn, ofn, omsg, osink in own_sites:
+                if ofn is rf:
+                    n_taken += 1
+                    _taken_status_rule(R, r_taken, orel, oqn, g_rf, omsg, {n.id for n in g_rf.nodes if osink(n)}, f"the call of {sf.name}")  # type: ignore[attr-defined]
+            n_taken += 1
+            _taken_status_rule(R, r_taken, srel, sqn, gq, status_msg, guard_ids, "the pending-future lookup", param=True)
+    if guards and n_taken == 0 and n_own:
+        R.ok(r_taken, srel, sqn, "the status message is handed to the completing helper without being kept in a local", "", sf.lineno)
+    elif not guards:
+        R.ok(r_taken, srel, sqn, "no pending-membership guard (reported by C15-D2-resolve-once)", "", sf.lineno)
     if n_own == 0:
         raise AnalysisError("run_forever: binding of the status message (the loop that takes status messages one by one) not found")
     # the same on the worker side: what a job is run on and what is published for it is assigned for every job message
@@ -2016,6 +2049,8 @@ def run(repo: Repo, R: Report) -> None:
                 R.check(lost is None, r_intact, wrel, wqn, f"published {fname} `{norm(val)[:30]}` is the result's `{fname}` object (or a copy that keeps its class and state)",
                         f"`{norm(lost[0])[:70] if lost else ''}` is published in place of the {fname} the pipeline returned: {lost[1] if lost else ''} - the Future completes with something else than the job's result",
                         getattr(lost[0], "lineno", c.lineno) if lost else c.lineno)
+    result_published_rule(repo, R, wrel, wqn, wl, wmod, g, prov, marker_key, in_handler, wfuncs, wfunc_rel)
+    status_context_own_rule(repo, R, wfuncs, wfunc_rel)
     # payload of the job is built from this message: every definition of the two payload values that can reach
     # the call lies inside the job body and is computed from this message, or is a fresh default object that is
     # chosen only where the message's own field is None
@@ -3261,3 +3296,436 @@ def handed_on_intact(repo: Repo, prov: Provenance, leaves: List[Leaf], roots: Li
         if k == "lossy" or (strict and k == "other"):
             return v
     return None
+
+
+# ---------------------------------------------------------------------------
+# Round 8: D2 a taken status reaches the lookup; D4 the success status carries the pipeline's result; D4 the status
+# context is the job's own object
+# ---------------------------------------------------------------------------
+def _taken_status_rule(R: Report, rule, rel: str, qn: str, g: CFG, msg: str, decisions: Set[int], what: str, param: bool = False) -> None:
+    """From the binding of a status message (taking it has removed it from the transport) every way of ending its
+    handling - the next binding, leaving the loop, returning - passes one of the *decisions* nodes (the pending
+    membership test, or the call of the helper that holds it).  Exception edges are not followed (a status the
+    master cannot read is another matter) and the edges on which the local is known to be None (`msg = next(it,
+    None)`: no message was taken) are not part of any message.  With *param* the message is the function's
+    parameter: the handling starts at the entry."""
+    heads = [] if param else [n.id for n in g.nodes if n.kind in ("for", "stmt", "with") and _node_defines(n, msg)]
+    if not heads and not param:
+        raise AnalysisError(f"{qn}: binding of the status message `{msg}` not found in the CFG")
+    inside: Optional[Set[int]] = None
+    for h in heads:
+        a = g.nodes[h].ast
+        loop = a if isinstance(a, (ast.For, ast.AsyncFor)) else next((x for x in ancestors(a) if isinstance(x, (ast.For, ast.AsyncFor, ast.While))), None)
+        if loop is not None and any(loop is x for x in ast.walk(g.func)):
+            inside = (inside or set()) | {id(x) for x in ast.walk(loop)}
+
+    def no_message(x: ast.AST) -> Optional[bool]:
+        if isinstance(x, ast.Compare) and len(x.ops) == 1 and isinstance(x.ops[0], (ast.Is, ast.IsNot, ast.Eq, ast.NotEq)):
+            l, r = x.left, x.comparators[0]
+            if isinstance(l, ast.Constant) and l.value is None:
+                l, r = r, l
+            if isinstance(l, ast.Name) and l.id == msg and isinstance(r, ast.Constant) and r.value is None:
+                return isinstance(x.ops[0], (ast.Is, ast.Eq))
+        if isinstance(x, ast.Name) and x.id == msg:
+            return False  # a message object is truthy: `if not msg:` is the no-message branch
+        return None
+
+    dead: Set[Tuple[int, str]] = set()
+    for n in g.nodes:
+        if n.kind in ("if", "while") and n.part is not None:
+            dead |= {(n.id, lab) for lab in edges_guaranteeing(n.part, no_message)}
+    exits = {n.id for n in g.nodes if n.kind in ("ret_exit", "exc_exit", "base_exit")}
+
+    def is_end(i: int) -> bool:
+        n = g.nodes[i]
+        return i in heads or i in exits or (inside is not None and n.ast is not None and id(n.ast) not in inside)
+
+    prev: Dict[int, Optional[int]] = {}
+    todo: List[int] = []
+    if param:
+        prev[g.entry] = None
+        todo.append(g.entry)
+    for h in heads:
+        for t, lab in g.succ[h]:
+            if lab in (EXC, BASE) or (g.nodes[h].kind == "for" and lab == "F") or t in prev:
+                continue
+            prev[t] = None
+            todo.append(t)
+    bad: Optional[int] = None
+    while todo and bad is None:
+        i = todo.pop(0)
+        if i in decisions:
+            continue
+        if is_end(i) and not (param and i == g.entry):
+            bad = i
+            break
+        for t, lab in g.succ[i]:
+            if lab in (EXC, BASE) or (i, lab) in dead or t in prev:
+                continue
+            prev[t] = i
+            todo.append(t)
+    path: List[str] = []
+    if bad is not None:
+        cur: Optional[int] = bad
+        ids: List[int] = []
+        while cur is not None and len(ids) < 10000:
+            ids.append(cur)
+            cur = prev.get(cur)
+        path = [f"L{g.nodes[i].line}: {g.nodes[i].text()[:100]}" for i in reversed(ids)]
+    line = g.nodes[heads[0]].line if heads else getattr(g.func, "lineno", 0)
+    last = next((p for p in reversed(path[:-1])), path[-1] if path else "")
+    R.check(bad is None, rule, rel, qn, f"status message `{msg}` -> {what}",
+            f"a status message that was taken off the transport can end its handling without reaching {what} (via `{last[:90]}`): the message is gone from the channel, nobody looks its job id up, "
+            "and that job's Future never completes (loss)", line, path or None)
+
+
+def result_published_rule(repo: Repo, R: Report, wrel: str, wqn: str, wl: ast.AST, wmod, g: CFG, prov: Provenance, marker_key, in_handler: Set[int],
+                          wfuncs: Optional[List[ast.AST]] = None, wfunc_rel: Optional[Dict[int, str]] = None) -> None:
+    """D4, the way back: the data and the context of a *success* status (a status publish of the worker side that does
+    not write the failure marker) are, on every path, computed from what the call that ran the pipeline on this job's
+    Payload returned.  The context that went in is not the result: the pipeline may wrap a plain mapping or hand back
+    a new context object, and the direct run returns that one.  The run call is found by role: the call the Payload
+    (its construction, or a local holding it) is handed to, or that is given the pipeline's `process`; in a helper
+    the success publish was moved to, a parameter is followed to the argument of every call site in the message loop."""
+    rule = R.rule("C15-D4-result-published", "the data and the context of a success status are computed, on every path to the publish, from the object the pipeline run on this job's Payload returned "
+                  "(the value of the call the Payload is handed to): the input data / context taken from the job message are not the result - the pipeline may wrap or replace them - "
+                  "and a Future completed with them differs from the direct run", 2)
+
+    def payload_ctor(e: Optional[ast.AST]) -> bool:
+        e = _strip_cast(e) if e is not None else e
+        return isinstance(e, ast.Call) and (call_name(e) or "").rsplit(".", 1)[-1] == "Payload"
+
+    class Ctx:
+        def __init__(self, fn: ast.AST, cfg: CFG, inside: Optional[Set[int]], msg: Optional[str]):
+            self.fn, self.g, self.inside, self.msg = fn, cfg, inside, msg
+            by_name: Dict[str, List[Optional[ast.AST]]] = {}
+            for st in walk_no_nested(fn):
+                for nm, v in _bindings(st):
+                    by_name.setdefault(nm, []).append(v)
+            self.payload_locals = {nm for nm, vs in by_name.items() if vs and all(payload_ctor(v) for v in vs)}
+            a_ = fn.args  # type: ignore[attr-defined]
+            self.params = [a.arg for a in a_.posonlyargs + a_.args + a_.kwonlyargs]
+            self.run_calls = {id(c) for c in calls_in(fn) if (inside is None or id(c) in inside) and self.runs(c)}
+            self.memo: Dict[Tuple[int, int], bool] = {}
+
+        def runs(self, c: ast.Call) -> bool:
+            if payload_ctor(c):
+                return False
+            parts = list(c.args) + [k.value for k in c.keywords] + ([c.func] if isinstance(c.func, ast.Attribute) else [])
+            for a in parts:
+                a = _strip_cast(a.value if isinstance(a, ast.Starred) else a)
+                if payload_ctor(a) or (isinstance(a, ast.Name) and a.id in self.payload_locals):
+                    return True
+                if isinstance(a, ast.Attribute) and a.attr == "process":
+                    return True
+            return False
+
+    wctx = Ctx(wl, g, prov.inside, prov.msg)
+    if not wctx.run_calls:
+        # the run was moved into a helper that is not inlined: the call of a function that builds the Payload / calls process
+        for c in calls_in(wl):
+            if id(c) not in prov.inside:
+                continue
+            try:
+                targets = repo.resolve_call(wmod, c)
+            except Exception:
+                targets = []
+            for _tm, t in targets:
+                if isinstance(t, FuncNode) and any(payload_ctor(x) or call_attr(x) == "process" or any(isinstance(y, ast.Attribute) and y.attr == "process" for y in ast.walk(x)) for x in calls_in(t)):
+                    wctx.run_calls.add(id(c))
+
+    def from_result(cx: "Ctx", e: ast.AST, at: int, depth: int = 0) -> bool:
+        """every value *e* can have at node *at* of cx.fn is computed from the value of a run call."""
+        if any(isinstance(x, ast.Call) and id(x) in cx.run_calls for x in ast.walk(e)):
+            return True
+        if depth > 10:
+            return False
+        key = (id(e), at)
+        if key in cx.memo:
+            return cx.memo[key]
+        cx.memo[key] = False
+        called = {id(c.func) for c in ast.walk(e) if isinstance(c, ast.Call)}
+        res = False
+        for x in ast.walk(e):
+            if not (isinstance(x, ast.Name) and isinstance(x.ctx, ast.Load)) or id(x) in called or x.id == cx.msg:
+                continue
+            defs = reaching_defs(cx.g, x.id, at)
+            if not defs:
+                if cx is not wctx and x.id in cx.params and param_from_result(cx, x.id):
+                    res = True
+                    break
+                continue
+            ok = True
+            for d in defs:
+                if d.kind != "stmt" or (cx.inside is not None and id(d.ast) not in cx.inside):
+                    ok = False
+                    break
+                vals = [v if v is not None else getattr(d.ast, "value", None) for nm, v in _bindings(d.ast) if nm == x.id]
+                if not vals or any(v is None or not from_result(cx, v, d.id, depth + 1) for v in vals):
+                    ok = False
+                    break
+            if ok:
+                res = True
+                break
+        cx.memo[key] = res
+        return res
+
+    def param_from_result(cx: "Ctx", p: str) -> bool:
+        """the helper's parameter is bound, at every call site in the message loop, to a value computed from the run."""
+        idx = cx.params.index(p)
+        sites = [c for c in calls_in(wl) if id(c) in prov.inside and (call_name(c) or "").rsplit(".", 1)[-1] == cx.fn.name]  # type: ignore[attr-defined]
+        if not sites:
+            return False
+        for c in sites:
+            off = 1 if cx.params and cx.params[0] in ("self", "cls") and isinstance(c.func, ast.Attribute) else 0
+            a = c.args[idx - off] if 0 <= idx - off < len(c.args) and not any(isinstance(y, ast.Starred) for y in c.args) else kwarg(c, p)
+            at = _node_of(g, c)
+            if a is None or at is None or not from_result(wctx, a, at):
+                return False
+        return True
+
+    n = 0
+    todo: List[Tuple["Ctx", str, str]] = [(wctx, wrel, wqn)]
+    for fn in (wfuncs or []):
+        if fn is wl or not any(is_status_publish(c, fn=fn) for c in calls_in(fn)):
+            continue
+        todo.append((Ctx(fn, _plain_cfg(fn), None, None), (wfunc_rel or {}).get(id(fn), W), qualname_of(getattr(fn, "_normal_of", fn))))
+    for cx, rel, qn in todo:
+        for node in cx.g.nodes:
+            if node.ast is None or node.kind != "stmt":
+                continue
+            if cx is wctx and (id(node.ast) not in prov.inside or id(node.ast) in in_handler):
+                continue
+            for c in calls_in(node.ast):
+                if not is_status_publish(c, None, cx.fn):
+                    continue
+                mk = metadata_keys(c, cx.fn)
+                if marker_key is not None and mk is not None and any(v is not None for v in mk.get(marker_key, [None])):
+                    continue  # a failure status: it carries no result
+                data = kwarg(c, "data") or (c.args[1] if len(c.args) > 1 else None)
+                if marker_key is None and (data is None or (isinstance(data, ast.Constant) and data.value is None)):
+                    continue
+                for fname, val in (("data", data), ("context", _publish_context(c))):
+                    n += 1
+                    ok = val is not None and not (isinstance(val, ast.Constant) and val.value is None) and from_result(cx, val, node.id)
+                    R.check(ok, rule, rel, qn, f"success status {fname} `{norm(val)[:40] if val is not None else None}` comes from the pipeline's result",
+                            f"the success status is published with {fname}=`{norm(val)[:60] if val is not None else None}`, which on some path is not computed from what the pipeline run returned for this job's Payload "
+                            f"(it is the {fname} that went in, or nothing): where the pipeline hands back another object - a plain mapping it wrapped, a context a processor replaced - the job-id annotation "
+                            "fails or lands on the stale input, and the Future does not complete with the (data, context) of the direct run", getattr(val, "lineno", c.lineno) if val is not None else c.lineno)
+    if n == 0:
+        raise AnalysisError(f"{wqn}: no success status publish (a jobs.<id>.status publish without the failure marker) found on the worker side")
+
+
+_IMMUTABLE_BUILDERS = {"frozenset", "tuple", "str", "int", "float", "bytes", "bool", "MappingProxyType", "namedtuple", "object", "compile", "getLogger", "TypeVar", "Lock", "RLock"}
+_COPY_CALLS = {"dict", "list", "set", "copy", "deepcopy", "OrderedDict", "defaultdict", "tuple", "frozenset", "sorted"}
+
+
+def _module_level_values(repo: Repo, mod, name: str, depth: int = 0) -> List[Tuple[object, ast.AST]]:
+    """(module, bound expression) for the module-level assignments that bind *name* as seen from *mod* (a
+    `from .x import NAME` is followed)."""
+    out: List[Tuple[object, ast.AST]] = []
+    for st in ast.walk(mod.tree):
+        if isinstance(st, FuncNode + (ast.ClassDef, ast.Lambda)):
+            continue
+        if isinstance(st, (ast.Assign, ast.AnnAssign)) and not any(isinstance(a, FuncNode + (ast.ClassDef,)) for a in ancestors(st)):
+            out += [(mod, v if v is not None else st.value) for nm, v in _bindings(st) if nm == name and (v is not None or st.value is not None)]
+    if out or depth > 2:
+        return out
+    target = mod.imports.get(name)
+    if target and "." in target:
+        mpath, _, attr = target.rpartition(".")
+        m2 = getattr(repo, "by_dotted", {}).get(mpath)
+        if m2 is not None and m2 is not mod:
+            return _module_level_values(repo, m2, attr, depth + 1)
+    return out
+
+
+def _shared_mutable(v: ast.AST) -> bool:
+    """The module-level value is one mutable object created at import: a dict / list / set display, a comprehension,
+    or a call that is not known to build an immutable value."""
+    if isinstance(v, (ast.Dict, ast.List, ast.Set, ast.ListComp, ast.DictComp, ast.SetComp)):
+        return True
+    return isinstance(v, ast.Call) and (call_name(v) or "").rsplit(".", 1)[-1] not in _IMMUTABLE_BUILDERS
+
+
+def _kept_by_reference(repo: Repo, km, K: ast.ClassDef, idx: Optional[int], kw: Optional[str], depth: int = 0) -> Optional[Tuple[ast.ClassDef, str, str]]:
+    """(class, parameter, attribute) when the constructor of K stores the argument at position *idx* / keyword *kw* in
+    the new object as it is (`self.a = p`, `self.a = p if p is not None else {}`, `self.a = p or {}`), directly or by
+    handing it on to the constructor of a base class; None when it is copied, converted or not stored."""
+    init = repo.method(km, K, "__init__")
+    if init is None or depth > 3:
+        return None
+    im, fn = init
+    s = _self_of(fn)
+    params = [a.arg for a in fn.args.posonlyargs + fn.args.args][1:]  # type: ignore[attr-defined]
+    p = kw if kw is not None and kw in params + [a.arg for a in fn.args.kwonlyargs] else (params[idx] if idx is not None and idx < len(params) else None)  # type: ignore[attr-defined]
+    if p is None or s is None:
+        return None
+    owner = next((c for _m, c in repo.mro(km, K) if any(st is fn for st in c.body)), K)
+
+    def bare(e: Optional[ast.AST], names: Set[str]) -> bool:
+        """*e* can evaluate to the object one of *names* is bound to (no copy in between)."""
+        if e is None:
+            return False
+        e = _strip_cast(e)
+        if isinstance(e, ast.Name):
+            return e.id in names
+        if isinstance(e, ast.IfExp):
+            return bare(e.body, names) or bare(e.orelse, names)
+        if isinstance(e, ast.BoolOp):
+            return any(bare(x, names) for x in e.values)
+        if isinstance(e, ast.NamedExpr):
+            return bare(e.value, names)
+        return False
+
+    names = {p}
+    for _ in range(3):  # locals that alias the parameter
+        for st in walk_no_nested(fn):
+            for nm, v in _bindings(st):
+                if v is not None and bare(v, names):
+                    names.add(nm)
+    for st in walk_no_nested(fn):
+        if isinstance(st, (ast.Assign, ast.AnnAssign)) and st.value is not None:
+            tgts = st.targets if isinstance(st, ast.Assign) else [st.target]
+            for t in tgts:
+                if isinstance(t, ast.Attribute) and isinstance(t.value, ast.Name) and t.value.id == s and bare(st.value, names):
+                    return owner, p, t.attr
+    for c in calls_in(fn):  # super().__init__(p) / Base.__init__(self, p)
+        if call_attr(c) == "__init__" and isinstance(c.func, ast.Attribute):
+            explicit_self = bool(c.args) and isinstance(c.args[0], ast.Name) and c.args[0].id == s and not (isinstance(c.func.value, ast.Call) and call_name(c.func.value) == "super")
+            args = c.args[1:] if explicit_self else c.args
+            bases = [mc for mc in repo.mro(im, owner)[1:]]
+            for i, a in enumerate(args):
+                if bare(a, names) and bases:
+                    r = _kept_by_reference(repo, bases[0][0], bases[0][1], i, None, depth + 1)
+                    if r is not None:
+                        return r
+            for k in c.keywords:
+                if k.arg and bare(k.value, names) and bases:
+                    r = _kept_by_reference(repo, bases[0][0], bases[0][1], None, k.arg, depth + 1)
+                    if r is not None:
+                        return r
+    return None
+
+
+_MUTATORS = {"update", "setdefault", "pop", "popitem", "clear", "append", "extend", "insert", "remove", "add", "discard", "__setitem__", "__delitem__", "sort", "reverse"}
+
+
+def _methods_mutate(repo: Repo, km, K: ast.ClassDef, attr: str) -> Optional[str]:
+    """Name of a method (other than the constructor) of K or of a class it inherits from / that inherits from it which
+    changes the object kept in `self.<attr>` in place (item store / delete, augmented assignment, a mutator call);
+    None when the instances only ever read it (a logger, a frozen template)."""
+    classes = list(repo.mro(km, K)) + list(repo.subclasses(K))
+    for _m, c in classes:
+        for st in c.body:
+            if not isinstance(st, FuncNode) or st.name in ("__init__", "__post_init__"):
+                continue
+            s = _self_of(st)
+            if s is None:
+                continue
+
+            def is_attr(e: ast.AST) -> bool:
+                return isinstance(e, ast.Attribute) and e.attr == attr and isinstance(e.value, ast.Name) and e.value.id == s
+
+            for x in ast.walk(st):
+                if isinstance(x, ast.Subscript) and isinstance(x.ctx, (ast.Store, ast.Del)) and is_attr(x.value):
+                    return st.name
+                if isinstance(x, ast.AugAssign) and (is_attr(x.target) or (isinstance(x.target, ast.Subscript) and is_attr(x.target.value))):
+                    return st.name
+                if isinstance(x, ast.Call) and isinstance(x.func, ast.Attribute) and x.func.attr in _MUTATORS and is_attr(x.func.value):
+                    return st.name
+    return None
+
+
+def status_context_own_rule(repo: Repo, R: Report, wfuncs: List[ast.AST], wfunc_rel: Dict[int, str]) -> None:
+    """D4: the context object of a status message is handed to the master by reference (the in-memory transport
+    files the object itself) and carries the job id the master looks the Future up by.  Statuses of different jobs
+    wait in the transport at the same time, so the object - and every mutable part of it the constructor keeps by
+    reference - must be this job's own: not an object bound at module level (created once at import).  Interface
+    condition between the worker's publish and the constructor of the context class: an argument that is a shared
+    mutable may only go into a parameter the constructor copies."""
+    rule = R.rule("C15-D4-status-context-per-job", "the context object a worker publishes with a status (the master reads the job id out of it, and the transport hands it over by reference) shares no mutable state "
+                  "between jobs: it is not an object bound at module level, and no constructor argument it is built from is a module-level mutable (dict / list / set / object created at import) "
+                  "that the constructor keeps by reference - the job-id annotation of a later status would rewrite the id inside every earlier status still waiting in the transport", 2)
+    n = 0
+    for nf in wfuncs:
+        rel = wfunc_rel.get(id(nf), W)
+        qn = qualname_of(getattr(nf, "_normal_of", nf))
+        if not any(is_status_publish(c, fn=nf) for c in calls_in(nf)):
+            continue
+        try:
+            fn = nfunc(repo, rel, qn, copyprop="all", consts=False)  # module-level mutables keep their names
+        except Exception:
+            fn = getattr(nf, "_normal_of", nf)
+        mod = repo.module(rel)
+        a_ = fn.args  # type: ignore[attr-defined]
+        params = {a.arg for a in a_.posonlyargs + a_.args + a_.kwonlyargs} | {a.arg for a in (a_.vararg, a_.kwarg) if a is not None}
+        bound = {nm for st in ast.walk(fn) for nm, _v in (_bindings(st) if isinstance(st, (ast.Assign, ast.AnnAssign, ast.AugAssign)) else [])}
+        bound |= {x.id for x in ast.walk(fn) if isinstance(x, ast.Name) and isinstance(x.ctx, ast.Store)}
+
+        def shared_global(e: Optional[ast.AST]) -> Optional[Tuple[str, ast.AST]]:
+            """(name, value) when *e* names a module-level mutable object."""
+            e = _strip_cast(e) if e is not None else e
+            if isinstance(e, ast.Name) and e.id not in params and e.id not in bound:
+                for _m, v in _module_level_values(repo, mod, e.id):
+                    if _shared_mutable(v):
+                        return e.id, v
+            return None
+
+        def values_of(e: ast.AST, depth: int = 0) -> List[ast.AST]:
+            e = _strip_cast(e)
+            if isinstance(e, ast.Name) and e.id in bound and e.id not in params and depth < 4:
+                out: List[ast.AST] = []
+                for st in walk_no_nested(fn):
+                    for nm, v in _bindings(st):
+                        if nm == e.id and v is not None:
+                            out += values_of(v, depth + 1)
+                return out
+            if isinstance(e, ast.IfExp):
+                return values_of(e.body, depth + 1) + values_of(e.orelse, depth + 1)
+            if isinstance(e, ast.BoolOp):
+                return [y for x in e.values for y in values_of(x, depth + 1)]
+            return [e]
+
+        for c in calls_in(fn):
+            if not is_status_publish(c, fn=fn):
+                continue
+            ctx = _publish_context(c)
+            if ctx is None:
+                continue
+            n += 1
+            bad: Optional[Tuple[ast.AST, str]] = None
+            for v in values_of(ctx):
+                g_ = shared_global(v)
+                if g_ is not None:
+                    bad = (v, f"`{g_[0]}` is one object bound at module level (`{norm(g_[1])[:50]}`): every status published with it is the same object")
+                    break
+                if isinstance(v, ast.Call) and isinstance(v.func, (ast.Name, ast.Attribute)):
+                    try:
+                        r = repo.resolve_name(mod, v.func, v)
+                    except Exception:
+                        r = None
+                    if r is None or not isinstance(r[1], ast.ClassDef):
+                        continue
+                    for i, a in enumerate(v.args):
+                        for av in values_of(a):
+                            g_ = shared_global(av)
+                            kept = _kept_by_reference(repo, r[0], r[1], i, None) if g_ is not None else None
+                            if g_ is not None and kept is not None and _methods_mutate(repo, r[0], r[1], kept[2]) is not None:
+                                bad = (v, f"`{g_[0]}` is one mutable object bound at module level (`{norm(g_[1])[:50]}`) and {kept[0].name}.__init__ keeps its parameter `{kept[1]}` by reference in self.{kept[2]}, which its methods change in place: "
+                                          f"every {r[1].name} built this way writes into the same {type(g_[1]).__name__.lower()}")
+                    for k in v.keywords:
+                        for av in (values_of(k.value) if k.arg else []):
+                            g_ = shared_global(av)
+                            kept = _kept_by_reference(repo, r[0], r[1], None, k.arg) if g_ is not None else None
+                            if g_ is not None and kept is not None and _methods_mutate(repo, r[0], r[1], kept[2]) is not None:
+                                bad = (v, f"`{g_[0]}` is one mutable object bound at module level (`{norm(g_[1])[:50]}`) and {kept[0].name}.__init__ keeps its parameter `{kept[1]}` by reference in self.{kept[2]}, which its methods change in place: "
+                                          f"every {r[1].name} built this way writes into the same {type(g_[1]).__name__.lower()}")
+                    if bad is not None:
+                        break
+            R.check(bad is None, rule, rel, qn, f"status context `{norm(ctx)[:40]}` of `{norm(c.args[0])[:40]}` is this job's own object",
+                    f"the status context `{norm(bad[0])[:70] if bad else ''}` shares state between jobs: {bad[1] if bad else ''}; the job id written into it for a later job replaces the id inside every earlier "
+                    "status that is still waiting in the transport (the transport hands the object over by reference), so the master completes a later job's Future with an earlier job's outcome "
+                    "(cross-talk) and the earlier job's Future never completes (loss)", getattr(bad[0], "lineno", c.lineno) if bad else c.lineno)
+    if n == 0:
+        raise AnalysisError("worker: no status publish with a context found")
